@@ -82,6 +82,9 @@ def run(ctx: Ctx):
     # the single-atom move restores every bond it touches: traversal discipline and pull length (C07/R7.2, R7.3, R7.5)
     c07.r7_2_3(ctx, ctx.func("move_mol_atom"))
     c07.r7_5(ctx, ctx.func("move_mol_atom"))
+    # rotations are rigid: the rotation-matrix rules of C17 (axis normalised, closed form orthogonal with det +1)
+    from . import rotmat
+    rotmat.rules(ctx)
     # R6.8: a proposal whose energy is not a number (degenerate single-atom move) is never accepted: the acceptance
     # rule has the positive form `E0/E1 >= 1 -> accept, else one draw`, which is False for NaN on both tests
     c09.r9_6(ctx, L, rule="R6.8")
